@@ -500,6 +500,9 @@ class StmtsMixin:
 
     def havoc_loop_state(self, h, vs, fs, calls, spec, s):
         for oid in vs:
+            if oid in h.env and isinstance(oid, tuple) and isinstance(h.env[oid], z3.ExprRef) and z3.is_array(h.env[oid]):
+                h.env[oid] = fresh('visited', h.env[oid].sort())
+                continue
             if oid in h.env:
                 tid = self.obj_type(oid, h.env[oid])
                 if tid is None:
@@ -630,13 +633,18 @@ class StmtsMixin:
                     st.names[v['Name']] = v['obj']['id']
                     st.env[v['obj']['id']] = self.lay.zero(v['obj']['t'])
         rid = ('$range', key)
-        st.env[rid] = z3.IntVal(0)
+        if isinstance(x, MapV):
+            # range over a map: an arbitrary enumeration of the keys present; the ghost set $visited<n> records the keys done
+            st.env[rid] = z3.K(x.dom.sort().domain(), z3.BoolVal(False))
+        else:
+            st.env[rid] = z3.IntVal(0)
         st.meta = dict(st.meta)
         rng = dict(st.meta.get('range', {}))
         rng[key] = {'x': x, 'mod': mod + [rid]}
         st.meta['range'] = rng
         self.frame.objtypes[rid] = self.frame.int_tid
         st.names['$i%s' % (self.loop_id(s),)] = rid
+        st.names['$visited%s' % (self.loop_id(s),)] = rid
 
     def range_guard(self, st, s):
         key = (s['line'], s['col'])
@@ -652,6 +660,22 @@ class StmtsMixin:
             n = x
         elif isinstance(x, StrV):
             raise Unsupported('range over string (runes)')
+        elif isinstance(x, MapV):
+            visited = i
+            kq = fresh('mk', x.dom.sort().domain())
+            more = fresh('more', B)
+            if not self.fork(st, more):
+                qk = fresh('q!k', x.dom.sort().domain())
+                st.assume(z3.ForAll([qk], z3.Implies(z3.Select(x.dom, qk), z3.Select(visited, qk))))
+                return False
+            st.assume(z3.And(z3.Select(x.dom, kq), z3.Not(z3.Select(visited, kq))))
+            st.meta['mapkey%s' % (key,)] = kq
+            kn, vn = s.get('Key'), s.get('Value')
+            if kn is not None and kn['_'] == 'Ident' and kn['Name'] != '_':
+                st.env[kn['obj']['id']] = self.key_value(st, kq, x.ktid)
+            if vn is not None and vn['_'] == 'Ident' and vn['Name'] != '_':
+                st.env[vn['obj']['id']] = self.lay.unflatten(iter([z3.Select(a, kq) for a in x.vals]), x.vtid)
+            return True
         else:
             raise Unsupported('range over %r' % (x,))
         if not self.fork(st, i < n):
@@ -674,6 +698,25 @@ class StmtsMixin:
                 self.assign_to(st, vn, v)
         return True
 
+    def key_value(self, st, kq, ktid):
+        """a Go value of the key type whose map identity is kq"""
+        if self.tt.is_string(ktid):
+            from .golib import str_arr_of, str_len_of
+            v = StrV(str_arr_of(kq), z3.IntVal(0), str_len_of(kq))
+            st.assume(self.str_ident(v.arr, v.off, v.len) == kq)
+            st.assume(v.len >= 0)
+            return v
+        if self.tt.kind(ktid) == 'ptr':
+            return PtrV(kq, self.tt[ktid]['e'])
+        if self.tt.kind(ktid) in ('iface', 'typeparam'):
+            return IfaceV(kq, fresh('tag'), ktid)
+        return kq
+
     def range_step(self, st, s):
         rid = ('$range', (s['line'], s['col']))
-        st.env[rid] = st.env[rid] + 1
+        v = st.env[rid]
+        if z3.is_array(v):
+            kq = st.meta.get('mapkey%s' % ((s['line'], s['col']),))
+            st.env[rid] = z3.Store(v, kq, z3.BoolVal(True))
+            return
+        st.env[rid] = v + 1
